@@ -899,17 +899,183 @@ def local_substituted(et, es):
         return False
     fwd = {}
     diff = 0
-    for a, b in zip(et, es):
+    def is_local(ts, k):
+        x = ts[k]
+        if not re.match(r'^[a-z_][a-z0-9_]*$', x) or x in KEYWORDS:
+            return False
+        prev = ts[k - 1] if k > 0 else ''
+        nxt = ts[k + 1] if k + 1 < len(ts) else ''
+        return prev not in ('.', '::') and nxt not in ('(', '::', '!')
+    for k, (a, b) in enumerate(zip(et, es)):
         if a != b:
-            if not (re.match(r'^[a-z_][a-z0-9_]*$', a) and re.match(r'^[a-z_][a-z0-9_]*$', b)) or a in KEYWORDS or b in KEYWORDS:
-                return False
+            if not (is_local(et, k) and is_local(es, k)):
+                return False     # something other than a local differs: not this kind of edit
             diff += 1
-        fwd.setdefault(a, set()).add(b)
+        if is_local(et, k):
+            fwd.setdefault(a, set()).add(b)
     if not diff:
         return False
     inconsistent = any(len(v) > 1 for v in fwd.values())
     images = [next(iter(v)) for v in fwd.values() if len(v) == 1]
     return inconsistent or len(images) != len(set(images))
+
+
+# ---- statement-level view of a body (plain token texts), for the "was anything moved across an exit" test ----
+EXITS = {'return', '?', 'break', 'continue'}
+BLOCK_HEADS = {'if', 'while', 'for', 'loop', 'match', 'unsafe'}
+
+
+def _close_of(ts, i):
+    """ts[i] is an opening bracket: index of its partner"""
+    pairs = {'(': ')', '[': ']', '{': '}'}
+    o, c = ts[i], pairs[ts[i]]
+    d = 0
+    for k in range(i, len(ts)):
+        if ts[k] == o:
+            d += 1
+        elif ts[k] == c:
+            d -= 1
+            if d == 0:
+                return k
+    return len(ts) - 1
+
+
+def split_statements(ts):
+    """ts: the tokens between a block's braces. Returns the list of statements (token lists): a simple statement runs to its
+    depth-0 `;`; a statement that starts with if / while / for / loop / match / unsafe / `{` runs to the end of its last block
+    (else-chains included, an optional `;` taken along); what is left at the end is the tail expression"""
+    out = []
+    i = 0
+    n = len(ts)
+    while i < n:
+        j = i
+        if ts[i] in BLOCK_HEADS or ts[i] == '{':
+            # find the first depth-0 `{`, close it, follow `else`
+            while True:
+                while j < n and ts[j] != '{':
+                    if ts[j] in '([':
+                        j = _close_of(ts, j)
+                    j += 1
+                if j >= n:
+                    break
+                j = _close_of(ts, j) + 1
+                if j < n and ts[j] == 'else':
+                    j += 1
+                    continue
+                break
+            if j < n and ts[j] == ';':
+                j += 1
+            # a block used as the head of a longer expression (`if c { a } else { b }.foo();`, `match x {..}?;`): take it to the `;`
+            elif j < n and ts[j] in ('.', '?'):
+                while j < n and ts[j] != ';':
+                    if ts[j] in '([{':
+                        j = _close_of(ts, j)
+                    j += 1
+                j += 1
+        else:
+            while j < n and ts[j] != ';':
+                if ts[j] in '([{':
+                    j = _close_of(ts, j)
+                j += 1
+            j += 1
+        out.append(ts[i:min(j, n)])
+        i = j
+    return out
+
+
+def _norm_stmt(st, mask_literals=False):
+    """a statement's tokens with local names blanked (so a renamed local does not make it another statement)"""
+    r = []
+    for k, x in enumerate(st):
+        if re.match(r'^[a-z_][a-z0-9_]*$', x) and x not in KEYWORDS:
+            prev = st[k - 1] if k > 0 else ''
+            nxt = st[k + 1] if k + 1 < len(st) else ''
+            if prev not in ('.', '::') and nxt not in ('(', '::', '!'):
+                r.append('_')
+                continue
+        if mask_literals and (x[:1].isdigit() or x[:1] in ('"', "'") or x[:2] in ('b"', "b'")):
+            r.append('#')
+            continue
+        r.append(x)
+    return ' '.join(r)
+
+
+def _blocks_of(ts):
+    """every block of a body, outermost first, as its list of statements"""
+    res = []
+    def walk(body):
+        sts = split_statements(body)
+        res.append(sts)
+        for st in sts:
+            k = 0
+            while k < len(st):
+                if st[k] == '{':
+                    c = _close_of(st, k)
+                    walk(st[k + 1:c])
+                    k = c + 1
+                else:
+                    k += 1
+    walk(ts)
+    return res
+
+
+def crossing_detected(et, es):
+    """True when the edit is positively one of two things no harmless rearrangement is: (1) in some block the same statements
+    stand in another order and a pair that changed places includes a statement holding an early exit (`return`, `?`, `break`,
+    `continue`) - something now runs on paths it did not run on, or two fallible steps swapped; (2) the statements are the
+    same once literals are masked but not with them - literals went from one statement to another."""
+    def body(ts):
+        # tokens between the function's outermost braces
+        try:
+            k = ts.index('{')
+        except ValueError:
+            return ts
+        return ts[k + 1:_close_of(ts, k)]
+    ba, bb = _blocks_of(body(et)), _blocks_of(body(es))
+    # (2) literals exchanged between statements
+    # (locals are numbered by first occurrence here, not blanked: `let len = {.. 16 ..}` and `let root_addr = {.. 8 ..}` that
+    # exchange their literals are two different statements each)
+    def alpha(ts):
+        names = {}
+        r = []
+        for k, x in enumerate(ts):
+            if re.match(r'^[a-z_][a-z0-9_]*$', x) and x not in KEYWORDS:
+                prev = ts[k - 1] if k > 0 else ''
+                nxt = ts[k + 1] if k + 1 < len(ts) else ''
+                if prev not in ('.', '::') and nxt not in ('(', '::', '!'):
+                    r.append(names.setdefault(x, 'v%d' % len(names)))
+                    continue
+            r.append(x)
+        return r
+    def masked(ts):
+        return ['#' if (x[:1].isdigit() or x[:1] in ('"', "'") or x[:2] in ('b"', "b'")) else x for x in ts]
+    fa = [' '.join(st) for st in split_statements(alpha(body(et)))]
+    fb = [' '.join(st) for st in split_statements(alpha(body(es)))]
+    ma = [' '.join(st) for st in split_statements(masked(alpha(body(et))))]
+    mb = [' '.join(st) for st in split_statements(masked(alpha(body(es))))]
+    if sorted(ma) == sorted(mb) and sorted(fa) != sorted(fb):
+        return True
+    # (1) a permutation inside a block that moves something across an exit
+    from collections import Counter
+    used = set()
+    for sa in ba:
+        ka = [_norm_stmt(st) for st in sa]
+        if len(ka) < 2:
+            continue
+        for q, sb_ in enumerate(bb):
+            if q in used:
+                continue
+            kb = [_norm_stmt(st) for st in sb_]
+            if ka != kb and Counter(ka) == Counter(kb) and len(set(ka)) == len(ka):
+                used.add(q)
+                posb = {x: i for i, x in enumerate(kb)}
+                exit_a = [bool(EXITS & set(st)) for st in sa]
+                for i in range(len(ka)):
+                    for j in range(i + 1, len(ka)):
+                        if posb[ka[i]] > posb[ka[j]] and (exit_a[i] or exit_a[j]):
+                            return True
+                break
+    return False
 
 
 SKELETON = {';', '{', '}', 'if', 'else', 'while', 'for', 'loop', 'match', 'return', 'let', '=>', 'break', 'continue', '?'}
@@ -1208,7 +1374,7 @@ def generate(unit, canary=False, expand=True):
                 dropped = False
             if status == 'merged' and item.kind == 'fn':
                 restructured = [x for x in et if x in SKELETON] != [x for x in es if x in SKELETON]
-                rearranged = content_bag(et) == content_bag(es) and not local_substituted(et, es)
+                rearranged = content_bag(et) == content_bag(es) and not local_substituted(et, es) and not crossing_detected(et, es)
                 # executable text was only taken away (nothing added, nothing moved): every annotation still stands where it
                 # stood relative to the statements that are left
                 deleted_only = all(op[0] in ('equal', 'delete') for op in difflib.SequenceMatcher(a=et, b=es, autojunk=False).get_opcodes())
